@@ -130,6 +130,9 @@ impl<T: Qcow2IoOps> Qcow2Dev<T> {
             // figure exact dependency on refcount cache & reftable entries
             self.flush_refcount().await?;
             self.flush_cache_entries(to_kill).await?;
+            // A clean slice is taken to be on disk when the l1 block pointing
+            // to its table is written later, so sync this write-back too.
+            self.call_fsync(0, usize::MAX, 0).await?;
         }
         Ok(entry)
     }
